@@ -3,6 +3,8 @@ package main
 import (
 	"bufio"
 	"fmt"
+	"io"
+	"log"
 	"net/http"
 	"sort"
 	"strings"
@@ -30,9 +32,10 @@ type Desc struct {
 // Case = one description, one entry point, one request as a raw request line.
 type Case struct {
 	Desc
-	Via    string `json:"via"`    // "routes" = Context.RoutesHandler(builder), "api" = Context.APIHandler(builder)
-	Method string `json:"method"` // method token as sent
-	Target string `json:"target"` // request-target as sent
+	Via    string `json:"via"`             // "routes" = Context.RoutesHandler(builder), "api" = Context.APIHandler(builder)
+	Debug  bool   `json:"debug,omitempty"` // middleware.Debug = true while the API is wired and the request served
+	Method string `json:"method"`          // method token as sent
+	Target string `json:"target"`          // request-target as sent
 }
 
 // built is a description wired on the real middleware; single-threaded use.
@@ -101,6 +104,23 @@ func build(d Desc, via string) (b *built, err error) {
 	}
 	return b, nil
 }
+
+// discardLogger swallows the debug output of the library.
+type discardLogger struct{}
+
+func (discardLogger) Printf(string, ...interface{}) {}
+func (discardLogger) Debugf(string, ...interface{}) {}
+
+// silence sends every log sink the middleware may write to (its package logger, the standard
+// logger) to nowhere; called once at start, independent of the DEBUG / SWAGGER_DEBUG variables.
+func silence() {
+	middleware.Logger = discardLogger{}
+	log.SetOutput(io.Discard)
+}
+
+// setDebug switches the library's debug mode (package variable middleware.Debug). It is only
+// called while no worker is serving requests.
+func setDebug(on bool) { middleware.Debug = on }
 
 var okBody = map[string]string{"ok": "1"}
 
@@ -186,6 +206,10 @@ func check(c Case) (class, what string) {
 	// Operations of one method whose routed shapes coincide are wired by the library in Go map
 	// order (which one wins is decided when the API is built): the case is re-wired up to 8
 	// times and the first failing observation is the verdict.
+	if c.Debug {
+		setDebug(true)
+		defer setDebug(false)
+	}
 	for attempt := 1; attempt <= 8; attempt++ {
 		b, err := build(c.Desc, c.Via)
 		if err != nil {
@@ -193,7 +217,7 @@ func check(c Case) (class, what string) {
 		}
 		req, _ = parse(rawRequest(c.Method, c.Target))
 		o := b.serve(req)
-		class, what, _ = judge(b.routes, req.Method, req.URL.EscapedPath(), o)
+		class, what, _ = judgeIn(c.Debug, b.routes, req.Method, req.URL.EscapedPath(), o)
 		if class != "" {
 			return class, what
 		}
